@@ -627,11 +627,11 @@ class HDPublicKey:
         """Returns the HDPublicKey at the path indicated.
         Path should be in the form of m/x/y/z."""
 
-        if not path.startswith("m"):
-            raise ValueError(f"Invalid Path: {path}")
-
         # accept path in uppercase and/or using h instead of '
         path = path.lower().replace("h", "'")
+
+        if not path.startswith("m"):
+            raise ValueError(f"Invalid Path: {path}")
 
         # start current node at self
         current = self
